@@ -3346,8 +3346,10 @@ RESUME_VALIDATE_CERTS:
         NOTE:  This case should only ever get hit if VALIDATE_KEY_MATERIAL
         has been disabled in matrixssllib.h */
 
-    if (ssl->err == SSL_ALERT_NONE &&
-        (ssl->keys == NULL || ssl->keys->CAcerts == NULL))
+    /*  Also when the chain has another flaw (an expired leaf, say): a
+        callback that tolerates that flaw would otherwise accept a peer that
+        nothing anchors */
+    if (ssl->keys == NULL || ssl->keys->CAcerts == NULL)
     {
         ssl->err = SSL_ALERT_UNKNOWN_CA;
         psTraceInfo("WARNING: Valid self-signed cert or cert chain but no local authentication\n");
